@@ -51,6 +51,13 @@ RULE = (
     'grid); aggregator history with a multi-leaf tree and >= 2 rounds (or >= 2 '
     'effective clients for the one-round statistical/independence checks). '
     'distinct = distinct canonical case JSON.')
+RULE += (
+    ' '
+    'Later widenings: explicit v_min / v_max thresholds; bfloat16 / float16 inputs and float3'
+    '2 inputs whose spread is a few ulps of a large offset for the binary quantizer; per-(rou'
+    'nd, position) independence through one-hot weights, one case in six over a cohort of 150'
+    ' clients; rotated / DRIVE histories in a child interpreter with JAX_THREEFRY_PARTITIONAB'
+    'LE=0.')
 ASSUMPTIONS = [
     'domain: float32 values that are 0 or normal with 2^-99 <= |x| <= 2^125 '
     '(~1.6e-30..4.3e37) for the uniform/binary quantizers, so that max-min <= '
